@@ -281,6 +281,10 @@ pub enum ClientOp {
     SendDrop { h: u16, work: Vec<Step>, polls: u8 },
     /// a send whose future is polled `extra` more times than it is woken (spurious polls are allowed by the Future contract)
     SendRepoll { h: u16, work: Vec<Step>, extra: u8 },
+    /// `drop(owning.join())`: a join future that is never polled
+    JoinDiscard { h: u16 },
+    /// `held_addr.clone().register()`: register an instance the client already holds (possibly the registered one)
+    RegisterHeld { h: u16 },
     /// create a join future, poll it once and keep it alive (a stalled `select!` arm) until the client ends
     JoinStash { h: u16 },
     Ping { h: u16 },
